@@ -1,5 +1,6 @@
 import Carquet.Util
 import Driver.Ops.Crc
+import Driver.Ops.Lz4
 import Driver.Ops.Schema
 /-
 Line-protocol driver.  One harness line in (operation, inputs, and what the real code
@@ -9,6 +10,7 @@ open Carquet.Util
 
 def handlers : List (Line → Option Verdict) :=
   [ Driver.Ops.Crc.handle,
+    Driver.Ops.Lz4.handle,
     Driver.Ops.Schema.handle ]
 
 def stepLine (s : String) : String :=
